@@ -135,6 +135,10 @@ def run(ctx):
             report(v2 or viol, shrunk if v2 else evs, cb_raises=cbr)
         else:
             longs.append((evs, obs))
+            nsync, v3 = impl.run_sync_variant(evs, obs, cb_raises=cbr)
+            ctx.hist("synchronous_completions", min(nsync, 5))
+            if v3:
+                report(v3, evs, cb_raises=cbr, variant="synchronous completion")
 
     # ---- 4. correspondence with the Coq model
     model_ok = ok
